@@ -107,7 +107,10 @@ func init() {
 					r.bad(key, fnName(pm), c.pos(pm.Pos()), "a field can be finished successfully without "+callee+": its offsets in the fields/doc-value index stay 0 and the loader misparses them")
 				}
 			}
-			slotStores := func(fn *ssa.Function, param *ssa.Parameter) map[*ssa.BasicBlock]bool {
+			// blocks that set param[...]: a store, or handing the slice to an
+			// in-package helper that itself sets it on each of its successful returns
+			var setsAlways func(fn *ssa.Function, param *ssa.Parameter, depth int) bool
+			slotStores := func(fn *ssa.Function, param *ssa.Parameter, depth int) map[*ssa.BasicBlock]bool {
 				out := map[*ssa.BasicBlock]bool{}
 				for _, b := range fn.Blocks {
 					for _, ins := range b.Instrs {
@@ -116,9 +119,32 @@ func init() {
 								out[b] = true
 							}
 						}
+						if ci, ok := ins.(ssa.CallInstruction); ok && depth < 3 {
+							sc := ci.Common().StaticCallee()
+							if sc == nil || !c.inRoot(sc) || sc.Blocks == nil {
+								continue
+							}
+							for ai, a := range ci.Common().Args {
+								if a == ssa.Value(param) && ai < len(sc.Params) && setsAlways(sc, sc.Params[ai], depth+1) {
+									out[b] = true
+								}
+							}
+						}
 					}
 				}
 				return out
+			}
+			setsAlways = func(fn *ssa.Function, param *ssa.Parameter, depth int) bool {
+				via := slotStores(fn, param, depth)
+				if len(via) == 0 {
+					return false
+				}
+				for _, rb := range successReturns(fn) {
+					if !coveredOnAllPaths(fn, via, rb) {
+						return false
+					}
+				}
+				return true
 			}
 			for _, name := range []string{"buildMergedDocVals", "(*interim).writeDictsField", "writeMergedDict"} {
 				fn := c.MustFn(name)
@@ -127,13 +153,7 @@ func init() {
 						continue
 					}
 					key := name + "/sets-" + p.Name()
-					via := slotStores(fn, p)
-					ok := len(via) > 0
-					for _, rb := range successReturns(fn) {
-						if !coveredOnAllPaths(fn, via, rb) {
-							ok = false
-						}
-					}
+					ok := setsAlways(fn, p, 0)
 					if ok {
 						r.ok(key, name, c.pos(fn.Pos()), "every successful return has stored "+p.Name()+"[fieldID]")
 					} else {
@@ -180,6 +200,26 @@ func init() {
 				}
 				return false
 			}
+			// len(vals) and len(fieldsInv) are the same bound when every caller
+			// allocates the scratch lists as make(..., len(fieldsInv))
+			fieldsInv := paramOfType(fn, "[]string")
+			valsSized := fieldsInv != nil
+			nSites := 0
+			for _, site := range c.callsTo(fn) {
+				nSites++
+				mk, ok := argFor(site.Common(), vals).(*ssa.MakeSlice)
+				if !ok {
+					valsSized = false
+					continue
+				}
+				x, name, ok := lenOrCapOf(mk.Len)
+				if !ok || name != "len" || x != argFor(site.Common(), fieldsInv) {
+					valsSized = false
+				}
+			}
+			if nSites == 0 {
+				valsSized = false
+			}
 			bounds := map[string]string{}
 			for _, h := range fn.Blocks {
 				if !isLoopHeader(h) {
@@ -203,7 +243,16 @@ func init() {
 					}
 				}
 				if uses {
-					bounds[exprSig(bin.Y, 0)] = c.pos(bin.Pos())
+					sig := exprSig(bin.Y, 0)
+					if x, name, ok := lenOrCapOf(bin.Y); ok && name == "len" {
+						switch {
+						case isVals(x) && valsSized:
+							sig = "the merged field count"
+						case fieldsInv != nil && x == ssa.Value(fieldsInv) && valsSized:
+							sig = "the merged field count"
+						}
+					}
+					bounds[sig] = c.pos(bin.Pos())
 				}
 			}
 			switch len(bounds) {
